@@ -1,6 +1,7 @@
 package main
 
 import (
+	"sync"
 	"bytes"
 	"context"
 	"fmt"
@@ -18,7 +19,49 @@ import (
 // goRefRun compiles and runs a Go program (package main) with the real Go
 // toolchain and returns its stdout; a run-time panic yields the output up to
 // the panic and panicked = true.  The oracle for "as Go does".
+type goRefRes struct {
+	out      string
+	panicked bool
+	err      error
+}
+
+var (
+	goRefMu    sync.Mutex
+	goRefCache = map[string]goRefRes{}
+)
+
+// goRefPrefetch builds and runs the reference programs in parallel (go build dominates the differential's time);
+// goRefRun then answers from the cache.
+func goRefPrefetch(srcs []string) {
+	sem := make(chan struct{}, 12)
+	var wg sync.WaitGroup
+	for _, s := range srcs {
+		s := s
+		wg.Add(1)
+		sem <- struct{}{}
+		go func() {
+			defer wg.Done()
+			defer func() { <-sem }()
+			o, p, e := goRefRunUncached(s)
+			goRefMu.Lock()
+			goRefCache[s] = goRefRes{o, p, e}
+			goRefMu.Unlock()
+		}()
+	}
+	wg.Wait()
+}
+
 func goRefRun(src string) (out string, panicked bool, err error) {
+	goRefMu.Lock()
+	r, ok := goRefCache[src]
+	goRefMu.Unlock()
+	if ok {
+		return r.out, r.panicked, r.err
+	}
+	return goRefRunUncached(src)
+}
+
+func goRefRunUncached(src string) (out string, panicked bool, err error) {
 	dir, err := os.MkdirTemp("", "goref")
 	if err != nil {
 		return "", false, err
